@@ -102,6 +102,13 @@ def oracle_lockfam(run):
             if k == "prd" and v != val:
                 return "thread %d read %d, last written value is %d" % (tid, v, val)
             if k == "pwr":
+                # C15: a read-modify-write operation (exchange, compare_exchange, modify) is ONE atomic step: the register
+                # must still hold the value the operation read when it writes
+                opn = cur.get(tid, "").split("!")[0].split("=")[0]
+                reads = [x for kk, x in seen.get(tid, []) if kk == "prd"]
+                if opn in ("xc", "ce", "md", "mv") and reads and reads[0] != val:
+                    return ("%s by thread %d read %d but the register held %d when it wrote %d: the operation is not atomic "
+                            "(another thread's write in between is lost)" % (cur.get(tid), tid, reads[0], val, v))
                 val = v
             seen.setdefault(tid, []).append((k, v))
         elif k in ("ret", "exc"):
